@@ -9,6 +9,9 @@ class FakeSite:
     def loc(self): return f"{self.file}:{self.line}"
 
 def obl_rule(rid, descr, scope, floor, select=lambda s: True):
+    if os.environ.get("VERIF_DEV_SKIP_OBL"):   # development only (tools/seedmatrix.py fast mode): never set by ./check
+        r = RuleResult(rid, descr + " [SKIPPED in dev mode]", floor=0); r.counts = {}
+        return r, dict(sites=[], wall_s=0)
     facts_dir = os.environ.get("FACTS")
     d = OBL.run_scope(facts_dir, scope)
     vet = OBL.load_vetted(os.path.join(HERE, "tables", "vetted.jsonl"))
